@@ -603,7 +603,8 @@ def process_config(args):
         v["replay_note"] = note
         v["reproduced"] = bool(failed)
     # ---- shadow run: the same harness on float64 with default inputs must hold numerically
-    if opts.get("shadow") and not res["violations"] and not res["error"] and not res["inconclusive"]:
+    sa = getattr(mod, "SHADOW_ALWAYS", None)  # configurations whose float path may part from the object path (stated per check)
+    if (opts.get("shadow") or (sa and sa(cfg))) and not res["violations"] and not res["error"] and not res["inconclusive"]:
         try:
             failed, note = concrete_run(mod, cfg, None)
             res["shadow"] = dict(failed=failed, note=note)
